@@ -95,6 +95,11 @@ def small_ptiers(G=8, maxn=3):
     return tiers
 
 
+def shift_tier(t, off):
+    """the same tier with every time moved by off ticks (off < 0: a tier that starts before 0)"""
+    return dict(t, min=t["min"] + off, max=t["max"] + off, entries=[[x + off for x in e[:-1]] + [e[-1]] for e in t["entries"]])
+
+
 def shrink_tier(t):
     """Candidate smaller tiers (drop one entry at a time)."""
     for k in range(len(t["entries"])):
